@@ -150,7 +150,7 @@ def main(argv):
         p = subprocess.Popen([PY, "-m", "vf.main", "--worker", pid, tier, str(seed), str(s), str(nshards), outp],
                              cwd=VERIF, env=env, stdout=errp, stderr=errp)
         procs.append((p, outp, errp))
-    budget = getattr(mod, "WALL_BUDGET", {"quick": 900, "thorough": 6 * 3600})[tier]
+    budget = getattr(mod, "WALL_BUDGET", {"quick": 3600, "thorough": 8 * 3600})[tier]
     deadline = time.time() + budget
     dead_shards = []
     for s, (p, outp, errp) in enumerate(procs):
